@@ -8,6 +8,8 @@ package main
 
 import (
 	"fmt"
+
+	"github.com/go-json-experiment/json/jsontext"
 	"reflect"
 	"strings"
 
@@ -24,6 +26,12 @@ type sibPair struct {
 	B sibBox            `json:"b"`
 	L []sibBox          `json:"l"`
 	M map[string]sibBox `json:"m"`
+}
+
+// sibBoxV keeps unknown members as raw text (the other kind of embedded fallback).
+type sibBoxV struct {
+	ID   int            `json:"id"`
+	Rest jsontext.Value `json:",embed"`
 }
 
 type sibArgs struct {
@@ -50,6 +58,26 @@ func checkSiblings(w *run.W, a *sibArgs) {
 		sibPair{M: map[string]sibBox{"x": {1, big}, "y": {2, small(3)}, "z": {3, small(4)}}},
 		[][]sibBox{{{1, big}}, {{2, small(5)}}},
 	}
+	// the same members kept as raw text: compact spelling, names in the order given, so that the bytes come back
+	raw := func(ns []string, v int) jsontext.Value {
+		var sb strings.Builder
+		sb.WriteByte('{')
+		for i, n := range ns {
+			if i > 0 {
+				sb.WriteByte(',')
+			}
+			fmt.Fprintf(&sb, `"%s":%d`, n, v+i)
+		}
+		sb.WriteByte('}')
+		return jsontext.Value(sb.String())
+	}
+	vals = append(vals,
+		[]sibBoxV{{1, raw(names, 0)}, {2, raw([]string{re, "id2"}, 7)}, {3, raw([]string{"alpha", "beta", "gamma", "delta"}, 1)}},
+		map[string]sibBoxV{"x": {1, raw([]string{"alpha", "beta"}, 3)}, "y": {2, raw(names[:min(len(names), 3)], 5)}},
+		struct {
+			A sibBoxV   `json:"a"`
+			L []sibBoxV `json:"l"`
+		}{sibBoxV{1, raw([]string{"alpha", "some-longer-member-name", "beta"}, 1)}, []sibBoxV{{2, raw(names, 9)}, {3, raw([]string{re}, 2)}}})
 	in := rtInfo{label: "sibling objects with long names", family: "siblings", eq: !os.omit}
 	for _, v := range vals {
 		roundTrip(w, reflect.ValueOf(v), os, in)
